@@ -1,5 +1,6 @@
 (* C04  Scalar typing is total, deterministic and follows the documented type table.
    This file contains only theorem statements closed by [exact lemma] and Print Assumptions. *)
+From Coq Require Import String.   (* string literals of the examples; imported first so the list names win *)
 From Coq Require Import NArith ZArith List Bool.
 From DictIO Require Import Chars Str Value Scalar TypeTable ScalarProofs.
 Import ListNotations.
@@ -19,10 +20,50 @@ Theorem C04_table_functional : forall s v1 v2, classify s v1 -> classify s v2 ->
 Proof. exact classify_functional. Qed.
 Print Assumptions C04_table_functional.
 
+(* non-vacuity: the table relates concrete strings of every row to a value (obtained through C04_table), and by
+   functionality to no other value *)
+Example C04_table_functional_nonvacuous :
+  (classify (of_string "-0012") (SInt (-12)) /\ forall v, classify (of_string "-0012") v -> v = SInt (-12)) /\
+  (classify (of_string ".5E-3") (SFloat (of_string ".5E-3")) /\ forall v, classify (of_string ".5E-3") v -> v = SFloat (of_string ".5E-3")) /\
+  (classify (of_string " oN ") (SBool true) /\ forall v, classify (of_string " oN ") v -> v = SBool true) /\
+  (classify (of_string "'a b'") (SStr (of_string "a b")) /\ forall v, classify (of_string "'a b'") v -> v = SStr (of_string "a b")) /\
+  (classify (of_string "-") (SStr (of_string "-")) /\ forall v, classify (of_string "-") v -> v = SStr (of_string "-")).
+Proof.
+  repeat match goal with |- _ /\ _ => split end;
+  try (match goal with |- classify ?s ?v =>
+         destruct (C04_table s) as [w [Hp Hc]]; vm_compute in Hp; injection Hp as <-; exact Hc end);
+  match goal with |- forall v, classify ?s v -> v = ?x =>
+    intros v Hv; destruct (C04_table s) as [w [Hp Hc]]; vm_compute in Hp; injection Hp as <-;
+    exact (C04_table_functional s v _ Hv Hc) end.
+Qed.
+
 (* classifying an already classified quote-free value changes nothing *)
 Theorem C04_idem : forall s v, quote_free s = true -> parse_value s = Ok v -> parse_scalar v = Ok v.
 Proof. exact parse_value_idem. Qed.
 Print Assumptions C04_idem.
+
+(* non-vacuity: quote-free strings of every class; the interesting case is a string result, which is classified again *)
+Example C04_idem_nonvacuous :
+  let a := of_string "hello world" in let b := of_string " 12" in let c := of_string "1.5e3" in let d := of_string "TRUE" in
+  (quote_free a = true /\ parse_value a = Ok (SStr a) /\ parse_scalar (SStr a) = Ok (SStr a)) /\
+  (quote_free b = true /\ parse_value b = Ok (SStr b) /\ parse_scalar (SStr b) = Ok (SStr b)) /\
+  (quote_free c = true /\ parse_value c = Ok (SFloat c) /\ parse_scalar (SFloat c) = Ok (SFloat c)) /\
+  (quote_free d = true /\ parse_value d = Ok (SBool true) /\ parse_scalar (SBool true) = Ok (SBool true)).
+Proof.
+  intros a b c d.
+  assert (Ha : quote_free a = true /\ parse_value a = Ok (SStr a)) by (vm_compute; split; reflexivity).
+  assert (Hb : quote_free b = true /\ parse_value b = Ok (SStr b)) by (vm_compute; split; reflexivity).
+  assert (Hc : quote_free c = true /\ parse_value c = Ok (SFloat c)) by (vm_compute; split; reflexivity).
+  assert (Hd : quote_free d = true /\ parse_value d = Ok (SBool true)) by (vm_compute; split; reflexivity).
+  exact (conj (conj (proj1 Ha) (conj (proj2 Ha) (C04_idem a _ (proj1 Ha) (proj2 Ha))))
+        (conj (conj (proj1 Hb) (conj (proj2 Hb) (C04_idem b _ (proj1 Hb) (proj2 Hb))))
+        (conj (conj (proj1 Hc) (conj (proj2 Hc) (C04_idem c _ (proj1 Hc) (proj2 Hc))))
+              (conj (proj1 Hd) (conj (proj2 Hd) (C04_idem d _ (proj1 Hd) (proj2 Hd))))))).
+Qed.
+(* the restriction to quote-free strings is needed: a doubly quoted number is a string first and a number next *)
+Example C04_idem_needs_quote_free :
+  parse_value (of_string "''12''") = Ok (SStr (of_string "'12'")) /\ parse_scalar (SStr (of_string "'12'")) = Ok (SStr (of_string "12")).
+Proof. vm_compute. split; reflexivity. Qed.
 
 (* writer spellings are classified back to the value they came from: every int, bool, None, finite float repr *)
 Theorem C04_fmt_int : forall z, parse_value (format_scalar (SInt z)) = Ok (SInt z).
@@ -38,9 +79,31 @@ Theorem C04_fmt_float : forall r, is_py_repr r = true -> parse_value (format_sca
 Proof. exact fmt_float_roundtrip. Qed.
 Print Assumptions C04_fmt_float.
 
+(* non-vacuity: float reprs of both shapes, with and without sign and exponent *)
+Example C04_fmt_float_nonvacuous :
+  let rs := map of_string ["1.5"; "-0.001"; "1e+16"; "-2.5e-07"; "123456789.123"]%string in
+  forallb is_py_repr rs = true /\ Forall (fun r => parse_value (format_scalar (SFloat r)) = Ok (SFloat r)) rs.
+Proof.
+  intros rs. assert (H : forallb is_py_repr rs = true) by (vm_compute; reflexivity). split; [exact H|].
+  apply Forall_forall. intros r Hr. apply C04_fmt_float. exact (proj1 (forallb_forall _ _) H r Hr).
+Qed.
+
 (* the strings handed to int() / float() are inside CPython's literal grammars *)
 Theorem C04_numeric_safe : forall s,
   (re_int s = true -> py_int_ok s = true) /\
   (re_float2 s = true -> py_float_ok s = true) /\ (re_float3 s = true -> py_float_ok s = true).
 Proof. exact numeric_regexes_safe. Qed.
 Print Assumptions C04_numeric_safe.
+
+(* the premises of the three implications are met *)
+Example C04_numeric_safe_nonvacuous :
+  (re_int (of_string "+0012") = true /\ py_int_ok (of_string "+0012") = true) /\
+  (re_float2 (of_string "-12.") = true /\ py_float_ok (of_string "-12.") = true) /\
+  (re_float3 (of_string ".5E-3") = true /\ py_float_ok (of_string ".5E-3") = true).
+Proof.
+  assert (H1 : re_int (of_string "+0012") = true) by (vm_compute; reflexivity).
+  assert (H2 : re_float2 (of_string "-12.") = true) by (vm_compute; reflexivity).
+  assert (H3 : re_float3 (of_string ".5E-3") = true) by (vm_compute; reflexivity).
+  exact (conj (conj H1 (proj1 (C04_numeric_safe _) H1))
+        (conj (conj H2 (proj1 (proj2 (C04_numeric_safe _)) H2)) (conj H3 (proj2 (proj2 (C04_numeric_safe _)) H3)))).
+Qed.
